@@ -1,5 +1,7 @@
 package ecs
 
+import "encoding/json"
+
 // C17: entity dump/load reproduces the alive set and the future handle sequence.
 
 func init() {
@@ -264,5 +266,32 @@ func HC17_Large() {
 	dst.RemoveEntity(hs[n-3])
 	e1, e2 := src.DumpEntities(), dst.DumpEntities()
 	dumpsEqual(&e1, &e2, true)
+	vReach("end")
+}
+
+func init() { vRegister("HC17_JSON", HC17_JSON) }
+
+// HC17_JSON: an entity handle survives MarshalJSON / UnmarshalJSON for every
+// id and generation; the encoded form is the two-element array [id, generation].
+func HC17_JSON() {
+	e := Entity{id: eid(vU32("id")), gen: vU32("gen")}
+	data, err := e.MarshalJSON()
+	vAssert(err == nil, "MarshalJSON does not fail")
+	var arr [2]uint32
+	vAssert(json.Unmarshal(data, &arr) == nil, "the JSON form is a two-element array")
+	vAssert(vAnd(arr[0] == uint32(e.id), arr[1] == e.gen), "the JSON form is [id, generation]")
+	back := Entity{id: 77, gen: 78}
+	vAssert(back.UnmarshalJSON(data) == nil, "UnmarshalJSON accepts what MarshalJSON produced")
+	vAssert(vAnd(back.id == e.id, back.gen == e.gen), "entity handles survive a JSON round trip unchanged")
+	vAssert(back == e, "round-tripped handle compares equal")
+	// a handle of a live world
+	w := NewWorld()
+	w.NewEntity()
+	a := w.NewEntity()
+	w.RemoveEntity(a)
+	a2 := w.NewEntity()
+	d2, _ := a2.MarshalJSON()
+	var b2 Entity
+	vAssert(b2.UnmarshalJSON(d2) == nil && w.Alive(b2) && !w.Alive(a) && b2 == a2, "a round-tripped handle addresses the same entity")
 	vReach("end")
 }
